@@ -7,6 +7,10 @@ NOTE = ("Trusted: Coq 8.16.1 kernel and vm_compute (no native_compute); no axiom
         "context'); the go2v translator; the Go harness/oracle; Go toolchain and third-party libraries. See DESIGN.md section 7.")
 SOURCE_COMMITS = ["05f9ccb verif hooks: export template rendering behind the 'verif' build tag"]
 CLAIMED = {
+ "C19": dict(ref="5 C19", technique="Rocq/Coq proof about go2v-generated dynamicIssuer and a model of ValidateIssuer over url.Parse components + in-Coq correspondence",
+   text="C19_static (accept implies host, https or http-when-insecure, no ? or # anywhere in the string), C19_dynamic (about the Gallina go2v regenerates from context.go), C19_derived and "
+        "C19_host_selection hold for all strings / header results; url.Parse and the Forwarded-header parser are oracles whose results the harness supplies. ValidateIssuer, NewProvider and the entityID "
+        "served for generated Host / Forwarded headers are compared with the model; F-19b (path characters inside a forwarded host) is a known finding."),
  "C10": dict(ref="5 C10", technique="Rocq/Coq proof (per-endpoint fail-closed corollaries of the endpoint models) + exhaustive fault enumeration on the implementation",
    text="C10_callback/_sso/_attrquery/_logout/_metadata/_probes: for every endpoint model, a reply with Success / user data / signed metadata implies that every storage and key operation the request "
         "needed succeeded, and a failed persist leaves nothing persisted (all inputs). The harness records the operations of a fault-free request per endpoint and injects every (operation, occurrence, kind) "
